@@ -36,7 +36,7 @@ def entryOkLrmMem (e : Entry) : Bool :=
   match e.rule.ops, e.kinds with
   | [f0, f1], [k0, _] =>
     !anyMemAlt f1 ||
-    ((e.enc == 0x4A || e.enc == 0x4D || e.enc == 0x14 || e.enc == 0x16 || e.enc == 0x21) && (legCoreM e 0 &&
+    ((e.enc == 0x4A || e.enc == 0x4D || e.enc == 0x14 || e.enc == 0x16 || e.enc == 0x21 || e.enc == 0x56 || e.enc == 0x2c) && (legCoreM e 0 &&
     (f0.role == .reg && (f1.role == .rm && (plainKind k0 && (noFix f0 && formOpMatches e.rule.oszEff f0 (.reg k0 0)))))))
   | _, _ => false
 
@@ -44,7 +44,7 @@ def entryOkLmrMem (e : Entry) : Bool :=
   match e.rule.ops, e.kinds with
   | [f0, f1], [_, k1] =>
     !anyMemAlt f0 ||
-    ((e.enc == 0x17 || e.enc == 0x18) && (legCoreM e 0 &&
+    ((e.enc == 0x17 || e.enc == 0x18 || e.enc == 0x56 || e.enc == 0x2c) && (legCoreM e 0 &&
     (f0.role == .rm && (f1.role == .reg && (plainKind k1 && (noFix f1 && formOpMatches e.rule.oszEff f1 (.reg k1 0)))))))
   | _, _ => false
 
@@ -241,5 +241,137 @@ theorem dispatch_arith_mem (c : Model.X86.Ctx) (row : Row) (k : RegKind) (i : Na
     dispatch c row 0#32 (.reg (rtypeOf k) i) (.mem m) .none .none = emitX86M c (addArithBySize (row.mainOp + 2#32) (kindSize k)) 0#32 (r32 i) m 0 0 := by
   rcases hk with h | h | h <;> subst h <;> constructor <;>
     simp [dispatch, henc, sig3, Op.kind, Op.id, Op.rmSize, rtypeOf, kindSize]
+
+/-! ### class ExtMov (movaps / movups / movapd / movdqa / movdqu / movq ...): its entries are part of the `lrm` (load: main opcode) and `lmr`
+(store: alternative opcode) chunks, so `front_cls_correct_lrm(_mem)` / `front_cls_correct_lmr(_mem)` cover them; this is the class switch. -/
+
+theorem dispatch_extmov (c : Model.X86.Ctx) (row : Row) (t0 t1 i0 i1 : Nat) (m : Mem) (henc : row.encoding = 0x56) :
+    dispatch c row 0#32 (.reg t0 i0) (.reg t1 i1) .none .none = emitX86R row.mainOp 0#32 (r32 i0) (r32 i1) 0 0 ∧
+    (row.altOp ≠ 0#32 → dispatch c row oModMR (.reg t0 i0) (.reg t1 i1) .none .none = emitX86R row.altOp oModMR (r32 i1) (r32 i0) 0 0) ∧
+    dispatch c row 0#32 (.reg t0 i0) (.mem m) .none .none = emitX86M c row.mainOp 0#32 (r32 i0) m 0 0 ∧
+    dispatch c row 0#32 (.mem m) (.reg t1 i1) .none .none = emitX86M c row.altOp 0#32 (r32 i1) m 0 0 := by
+  refine ⟨?_, ?_, ?_, ?_⟩
+  · simp [dispatch, henc, sig3, Op.kind, Op.id]
+  · intro h
+    have h' : (row.altOp == 0#32) = false := by simpa using h
+    simp [dispatch, henc, sig3, Op.kind, Op.id, oModMR, h']
+  · simp [dispatch, henc, sig3, Op.kind, Op.id]
+  · simp [dispatch, henc, sig3, Op.kind, Op.id]
+
+/-- the ModMR option itself does not influence the bytes `EmitX86R` writes -/
+theorem emitX86R_modmr (op a b : BitVec 32) (i : BitVec 64) (n : Nat) : emitX86R op oModMR a b i n = emitX86R op 0#32 a b i n := by
+  have e : extractRex op oModMR = extractRex op 0#32 := by simp only [extractRex, oModMR]; bv_decide
+  simp only [emitX86R, e]
+
+/-! ### classes X86M_Only (one memory operand: fxsave, prefetch*, clflush, lgdt, fldcw, ...) and X86Set (setcc r8 / m8) -/
+
+def legRuleMDOk (r : Rule) (nimm pp d : Nat) : Bool :=
+  r.modes &&& 2 != 0 && (r.space == 0 && (r.pp &&& 8 == 0 && (((r.pp &&& 1 != 0 || r.osz == 16) == (pp == 1)) && (((r.pp &&& 2 != 0) == (pp == 2)) &&
+  (((r.pp &&& 4 != 0) == (pp == 3)) && (pp < 4 && (!r.ri && ((r.modKind == 1 || r.modKind == 3) && (r.modr == d && (r.modrm == 8 &&
+  (r.immBytes == nimm && (r.relBytes == 0 && (!r.moff && (!r.a67 && !r.immRev))))))))))))))
+
+theorem legRuleMDOk_spec (r : Rule) (n pp d : Nat) (h : legRuleMDOk r n pp d = true) : LegRuleMD r n pp d ∧ (r.modes &&& 2 != 0) = true := by
+  simp only [legRuleMDOk, Bool.and_eq_true, Bool.or_eq_true, beq_iff_eq, bne_iff_ne, ne_eq, Bool.not_eq_true', decide_eq_true_eq] at h
+  obtain ⟨hmodes, hs, hpp8, h66, hF3, hF2, hpplt, hri, hmk, hmr, hmrm, himm, hrel, hmoff, ha67, hrev⟩ := h
+  exact ⟨⟨hs, hpp8, by simpa using h66, by simpa using hF3, by simpa using hF2, hpplt, hri, hmk, hmr, hmrm, himm, hrel, hmoff, ha67, hrev⟩, by simpa using hmodes⟩
+
+theorem alignOps1 (osz : Nat) (f0 : FormOp) (o0 : Operand) (h0 : formOpMatches osz f0 o0 = true) :
+    alignOps osz [f0] [o0] = some [(f0, some o0)] := by
+  simp [alignOps, h0]
+
+/-- the form's digit is the one the class hands to the emitter (`extract_mod_o` of the main opcode), or the form has none -/
+def digitAgrees (e : Entry) : Bool := e.rule.modr == 8 || e.rule.modr == (digitOf e).toNat
+
+def entryOkLmMem (e : Entry) : Bool :=
+  match e.rule.ops with
+  | [f0] =>
+    !anyMemAlt f0 || e.rule.pp &&& 8 != 0 ||       -- FWAIT-prefixed form (`fstcw` = 9B D9 /7): not covered
+    ((e.enc == 0x0E || e.enc == 0x38) && (legRuleMDOk e.rule 0 ((e.mainOp >>> 21) &&& 3#32).toNat e.rule.modr && (digitAgrees e &&
+      (legAgreeOk e.rule e.mainOp && (e.mainOp &&& 0xF780FC00#32 == 0#32 && f0.role == .rm)))))
+  | _ => false
+
+theorem lm_mem_entries_ok : lmChunks.all (fun c => c.all entryOkLmMem) = true := by decide +kernel
+
+/-- **front_cls_correct with a memory operand, classes X86M_Only and X86Set**: one memory operand, every address form with an `AddrFormL`
+instance (base / base+index*scale / RIP-relative, segment override, 32-bit address registers, ALL displacements). -/
+theorem front_cls_correct_lm_mem (e : Entry) (ch : List Entry) (hch : ch ∈ lmChunks) (he : e ∈ ch)
+    (c : Model.X86.Ctx) (ctx : Spec.X86.Ctx) (xb : BitVec 32) (size : Nat) (m : Mem) (mo : MemOp) (pfx : List (BitVec 8))
+    (mb : BitVec 32 → BitVec 8) (sib : Option (BitVec 8)) (ds : List (BitVec 8))
+    (AF : AddrFormL c ctx m mo pfx xb mb sib ds) (hsize : mo.size = size) (hm64 : ctx.mode64 = true) (hfw : e.rule.pp &&& 8 = 0)
+    (hsz : ∀ f0, e.rule.ops[0]? = some f0 → hasMemAlt f0 size = true) :
+    ∃ bytes, emitX86M c e.mainOp 0#32 (digitOf e) m 0 0 = .ok bytes ∧ formOk ctx e.rule [.mem mo] {} bytes = true := by
+  have hok := mem_chunks_ok lm_mem_entries_ok e ch hch he
+  unfold entryOkLmMem at hok
+  split at hok
+  · rename_i f0 hops
+    have hm0 : hasMemAlt f0 size = true := hsz f0 (by rw [hops]; rfl)
+    simp only [hasMemAlt_any f0 size hm0, hfw, bne_self_eq_false, Bool.not_true, Bool.false_or, Bool.and_eq_true, Bool.or_eq_true, beq_iff_eq, digitAgrees] at hok
+    obtain ⟨-, hR, hdg, hA, hmask, ra⟩ := hok
+    obtain ⟨R, hmode⟩ := legRuleMDOk_spec _ _ _ _ hR
+    have A := (legAgreeOk_spec _ _ hA).1
+    have hal : alignOps e.rule.oszEff e.rule.ops [.mem mo] = some [(f0, some (.mem mo))] := by
+      rw [hops]
+      exact alignOps1 _ _ _ (hasMemAlt_matches _ _ _ _ hm0 hsize AF.hvsib)
+    have hd : digitOf e < 8#32 := by simp only [digitOf]; bv_decide
+    exact legM_m_formOk c ctx e.rule e.mainOp (digitOf e) xb m mo pfx mb sib ds AF f0 e.rule.modr hm64 hmode hmask hd R
+      (by intro h8; rcases hdg with h | h <;> omega) A ra hal
+  · simp at hok
+
+/-! class X86Set with a register: ALL 8-bit registers (AL..R15B, SPL..DIL with a forced REX, AH..BH without) -/
+
+def entryOkSetR (e : Entry) : Bool :=
+  match e.rule.ops, e.kinds with
+  | [f0], [k0] =>
+    e.enc == 0x38 && (legRuleDOk e.rule 0 ((e.mainOp >>> 21) &&& 3#32).toNat e.rule.modr && (digitAgrees e && (legAgreeOk e.rule e.mainOp &&
+    (f0.role == .rm && ((k0 == .gpb || k0 == .gpbhi) && (noFix f0 && formOpMatches e.rule.oszEff f0 (.reg k0 0)))))))
+  | _, [] => true      -- X86M_Only entries of the chunk: no register form
+  | _, _ => false
+
+theorem set_entries_ok : lmChunks.all (fun c => c.all entryOkSetR) = true := by decide +kernel
+
+theorem front_cls_correct_set_r (e : Entry) (ch : List Entry) (hch : ch ∈ lmChunks) (he : e ∈ ch)
+    (ctx : Spec.X86.Ctx) (r0 : BitVec 32) (k0 : RegKind) (hk : e.kinds = [k0]) (hm64 : ctx.mode64 = true) (h0 : r0 < 16#32)
+    (hhi : k0 = .gpbhi → r0 < 4#32) (bytes : List (BitVec 8))
+    (hb : emitX86R e.mainOp (fix1 k0 r0).1 (digitOf e) (fix1 k0 r0).2 0 0 = .ok bytes) :
+    formOk ctx e.rule [.reg k0 r0.toNat] {} bytes = true := by
+  have hok := mem_chunks_ok set_entries_ok e ch hch he
+  unfold entryOkSetR at hok
+  split at hok
+  · rename_i f0 k0' hops hkinds
+    have hkk : k0' = k0 := by rw [hkinds] at hk; injection hk with hk _
+    subst hkk
+    simp only [Bool.and_eq_true, Bool.or_eq_true, beq_iff_eq, digitAgrees] at hok
+    obtain ⟨-, hR, hdg, hA, ra, hk8, n0, m0⟩ := hok
+    obtain ⟨A, hmask⟩ := legAgreeOk_spec _ _ hA
+    have R := legRuleDOk_spec _ _ _ _ hR
+    have hal : alignOps e.rule.oszEff e.rule.ops [.reg k0' r0.toNat] = some [(f0, some (.reg k0' r0.toNat))] := by
+      rw [hops]
+      exact alignOps1 _ _ _ (by rw [formOpMatches_reg_nofix _ _ _ _ n0]; exact m0)
+    have hd : digitOf e < 8#32 := by simp only [digitOf]; bv_decide
+    exact rOnly_formOk ctx e.rule e.mainOp (digitOf e) r0 k0' f0 e.rule.modr hm64 (by simpa using R.hmodes) hmask
+      (by rcases hk8 with h | h <;> simp [h]) hd h0 hhi R (by intro h8; rcases hdg with h | h <;> omega) A ra hal bytes hb
+  · rename_i hkinds; rw [hkinds] at hk; cases hk
+  · simp at hok
+
+/-- the class switches: X86M_Only, X86Set -/
+theorem dispatch_m_only (c : Model.X86.Ctx) (row : Row) (m : Mem) (henc : row.encoding = 0x0e ∨ row.encoding = 0x38) :
+    dispatch c row 0#32 (.mem m) .none .none .none = emitX86M c row.mainOp 0#32 ((row.mainOp >>> 18) &&& 7#32) m 0 0 := by
+  rcases henc with h | h <;> simp [dispatch, h, sig3, Op.kind]
+
+theorem dispatch_set_r (c : Model.X86.Ctx) (row : Row) (k0 : RegKind) (i0 : Nat) (henc : row.encoding = 0x38) (hk : k0 = .gpb ∨ k0 = .gpbhi) :
+    dispatch c row 0#32 (.reg (rtypeOf k0) i0) .none .none .none =
+      emitX86R row.mainOp (fix1 k0 (r32 i0)).1 ((row.mainOp >>> 18) &&& 7#32) (fix1 k0 (r32 i0)).2 0 0 := by
+  rcases hk with h | h <;> subst h <;>
+    simp [dispatch, henc, sig3, Op.kind, Op.id, rtypeOf, fix1, fixK, fixupGpb, Op.isGp8Hi]
+
+/-- class X86Mov, control / debug register moves (64-bit mode: `mov r64, crN|drN`, `mov crN|drN, r64`): the entries are part of the `lmr` /
+`lrm` chunks (`finalOpLeg` = 0F 20 / 0F 21 / 0F 22 / 0F 23), so `front_cls_correct_lmr` / `front_cls_correct_lrm` cover them for ALL register
+numbers 0..15; this is the class switch -/
+theorem dispatch_mov_crdr (c : Model.X86.Ctx) (row : Row) (i0 i1 : Nat) (henc : row.encoding = 0x2c) (hm : c.mode64 = true) :
+    dispatch c row 0#32 (.reg (rtypeOf .gpq) i0) (.reg (rtypeOf .creg) i1) .none .none = emitX86R 0x120#32 0#32 (r32 i1) (r32 i0) 0 0 ∧
+    dispatch c row 0#32 (.reg (rtypeOf .gpq) i0) (.reg (rtypeOf .dreg) i1) .none .none = emitX86R 0x121#32 0#32 (r32 i1) (r32 i0) 0 0 ∧
+    dispatch c row 0#32 (.reg (rtypeOf .creg) i0) (.reg (rtypeOf .gpq) i1) .none .none = emitX86R 0x122#32 0#32 (r32 i0) (r32 i1) 0 0 ∧
+    dispatch c row 0#32 (.reg (rtypeOf .dreg) i0) (.reg (rtypeOf .gpq) i1) .none .none = emitX86R 0x123#32 0#32 (r32 i0) (r32 i1) 0 0 := by
+  refine ⟨?_, ?_, ?_, ?_⟩ <;> simp [dispatch, henc, sig3, Op.kind, Op.id, Op.isGp, rtypeOf, hm]
 
 end AsmjitVerif.Props.C01
